@@ -644,8 +644,9 @@ def mutate_case(R, r, t, d, e, obj, view, cls, cache, buf, ops, exp, cctx, sx):
         return
     cur_e = e
     kept = {}                       # nested container handles obtained once and reused (also across buffer growth)
+    arrp = [p for p in allp if p[1][0] == "array"]        # whole nested arrays: the subject of `Lay.updateArr` (C11_array_update_*)
     for _ in range(r.randrange(1, 7)):
-        path, st, sub = r.choice(allp)
+        path, st, sub = r.choice(arrp) if arrp and r.random() < 0.25 else r.choice(allp)
         kind = r.choice(["get", "badidx", "set", "set", "set", "setmisfit", "badlen", "grow"])
         h = r.choice([obj, view])
         hname = "handle" if h is obj else "view"
